@@ -298,7 +298,10 @@ type hopT struct {
 	theta time.Duration
 	drop  bool
 	refuse bool // answer at once, but as an unsynchronized server (leap indicator 3): the client gets an immediate error
-	round int
+	// refuseFollowUps: the first request of a round is answered properly (basic mode), every further one of the
+	// same round is refused - a server that rate-limits the rapid follow-ups of a client seeking interleaved mode
+	refuseFollowUps bool
+	round           int
 	recs  []*exRec
 	byRx  map[ntp.Time64]*exRec
 }
@@ -334,6 +337,9 @@ func (h *hopT) loop() {
 		e.rx64 = ntp.Time64FromTime(r.Add(theta))
 		e.cited = h.byRx[q.OriginTime]
 		h.recs = append(h.recs, e)
+		if h.refuseFollowUps && len(h.recs) > 1 {
+			refuse, e.cited = true, nil
+		}
 		h.mu.Unlock()
 		if drop {
 			continue
@@ -406,7 +412,7 @@ func fingerprints(ps []snet.Path) []string {
 	return fs
 }
 
-var recRound = ev.New("c15/multipath-rounds", "rapid state machine over rounds of the real MeasureClockOffsetSCION on loopback: 1..5 real SCIONClients (interleaved mode on/off, counting filters), 0..8 offered paths per round (subset / superset / permutation of the previous round's, withdrawals) whose next hops are distinct harness sockets that answer as SCION time servers with per-path clock offsets >= 2 s apart; per-path faults: no answer, or an immediate refusal (reply with leap indicator 3, so that a failed measurement completes before the successful ones); crypto/rand scripted with rapid-drawn words. Oracle per round: the offered list holds the same paths after the call (callers offer it again); no path => error and no request; otherwise the number of next hops that saw a request equals min(clients, paths) and no hop serves two clients; a client in interleaved mode whose previous path is still offered sends an interleaved-form request to exactly that path's next hop, a client whose previous path was withdrawn sends a basic request and its filter was reset; the returned offset is the fault-tolerant midpoint of the offsets of the paths that answered (450 ms tolerance; per-path offsets are >= 2 s apart) and an error is returned when none answered. One evaluation = one round. Non-trivial: round with >= 1 sticky client and >= 1 withdrawn path, or more clients than paths > 0; distinct by round-log hash")
+var recRound = ev.New("c15/multipath-rounds", "rapid state machine over rounds of the real MeasureClockOffsetSCION on loopback: 1..5 real SCIONClients (interleaved mode on/off, counting filters), 0..8 offered paths per round (subset / superset / permutation of the previous round's, withdrawals) whose next hops are distinct harness sockets that answer as SCION time servers with per-path clock offsets >= 2 s apart; per-path faults: no answer, an immediate refusal (reply with leap indicator 3, so that a failed measurement completes before the successful ones), or a proper answer to the first request of the round and refusals of the follow-ups (the path still contributes its value); crypto/rand scripted with rapid-drawn words. Oracle per round: the offered list holds the same paths after the call (callers offer it again); no path => error and no request; otherwise the number of next hops that saw a request equals min(clients, paths) and no hop serves two clients; a client in interleaved mode whose previous path is still offered sends an interleaved-form request to exactly that path's next hop, a client whose previous path was withdrawn sends a basic request and its filter was reset; the returned offset is the fault-tolerant midpoint of the offsets of the paths that answered (450 ms tolerance; per-path offsets are >= 2 s apart) and an error is returned when none answered. One evaluation = one round. Non-trivial: round with >= 1 sticky client and >= 1 withdrawn path, or more clients than paths > 0; distinct by round-log hash")
 
 func TestPropMultipathRounds(t *testing.T) {
 	vt.Check(t, 300, 1500, func(t *rapid.T) {
@@ -464,6 +470,7 @@ func TestPropMultipathRounds(t *testing.T) {
 			// per-hop configuration
 			dropSet := map[int]bool{}
 			refuseSet := map[int]bool{}
+			followSet := map[int]bool{}
 			thetas := map[int]time.Duration{}
 			for _, hidx := range offered {
 				thetaSeq++
@@ -476,10 +483,13 @@ func TestPropMultipathRounds(t *testing.T) {
 				if !dropSet[hidx] && rapid.IntRange(0, 5).Draw(t, "refuse") == 3 {
 					refuseSet[hidx] = true
 				}
+				if !dropSet[hidx] && !refuseSet[hidx] && rapid.IntRange(0, 5).Draw(t, "refuse-follow-ups") == 2 {
+					followSet[hidx] = true
+				}
 			}
 			for i, h := range hops {
 				h.mu.Lock()
-				h.theta, h.drop, h.refuse, h.round, h.recs = thetas[i], dropSet[i], refuseSet[i], round, nil
+				h.theta, h.drop, h.refuse, h.refuseFollowUps, h.round, h.recs = thetas[i], dropSet[i], refuseSet[i], followSet[i], round, nil
 				h.mu.Unlock()
 			}
 			// a path whose server refuses contributes no value, exactly like a path that does not answer - but the
@@ -608,6 +618,9 @@ func TestPropMultipathRounds(t *testing.T) {
 				// the value a client reports describes the last accepted sub-exchange: current theta for a basic
 				// reply, the cited exchange's theta for an interleaved one
 				last := recs[len(recs)-1]
+				if followSet[hidx] {
+					last = recs[0] // only the first request of the round was answered
+				}
 				th := thetas[hidx]
 				if last.servedInterleaved {
 					th = thetaOf(last.cited, thetas, hidx)
